@@ -5,7 +5,7 @@ HERE = os.path.dirname(os.path.dirname(os.path.abspath(__file__)))
 CHECKS = {
  "C09": dict(
   text="Bounded symbolic model checking of Feature.get_sub_location_from_protein_coordinates / convert_protein_position_to_dna on genes with 1-3 exons and origin-spanning two-exon genes, either strand, symbolic exon boundaries (lengths not multiples of three), symbolic protein range: result has three bases per residue, the gene's strand, lies in the record, and for every position t the t-th base of the result in reading order is the (3s+t)-th coding base of the gene; of the TTA codon marker placement; and of codon_start handling in CDSFeature.from_biopython/to_biopython (reading frame starts codon_start-1 bases in; written location and qualifier are the originals).",
-  note="'Extract and translate gives that stretch of the translation' is reduced to base-for-base equality of coding-order positions (Bio's extract concatenates parts in order, reverse-complementing on strand -1: trusted). Known finding C09-1 (TTA marker by start+offset) is reported as KNOWN-FINDING. Prepeptide leader/core/tail call the checked function with concrete string lengths and are not separately explored.",
+  note="'Extract and translate gives that stretch of the translation' is reduced to base-for-base equality of coding-order positions (Bio's extract concatenates parts in order, reverse-complementing on strand -1: trusted). Known finding C09-1 (TTA marker by start+offset) is reported as KNOWN-FINDING. Prepeptide.to_biopython's leader / core / tail locations are explored as a fourth harness (gene of 1-2 exons or origin-spanning, either strand, symbolic length; leader 0-2, tail 0-1 residues): they split the coding bases in reading order, three per residue.",
   ref="3/C09"),
  "C10": dict(
   text="Bounded symbolic model checking, at object level, of the GenBank path (Record.to_biopython -> Record.from_biopython with every feature class's to/from_biopython) and the JSON path (record_to_json / feature_to_json -> record_from_json / feature_from_json / location_from_string) on a record with a gene, 1-2 (thorough: 3) protoclusters (core inside extent, optionally origin-spanning, optionally identical coordinates), the candidate clusters and regions the real formation code builds, and an optional subregion, all coordinates and the record length symbolic: the reloaded record has the same genes, protoclusters (product, location, core, cutoff, neighbourhood, number), candidates (kind, location, members, number), subregions and regions (location, candidate and subregion numbers, number) and gene-to-region links; converting the reloaded record again gives an identical feature table (fixed point); a second reload equals the first. A second harness does the same for every other feature class with its own to/from pair, one kind per variant on a gene of symbolic shape (simple / two exons / origin-spanning, either strand): gene functions + sec_met + NRPS/PKS qualifiers, PFAM domains with GO terms, plain and modular aSDomains, antiSMASH-made and external CDS motifs, prepeptides (every leader / tail combination), aSModules, gene / source / misc features with notes, codon_start genes with notes, sideloaded protoclusters / subregions; annotation coordinates, protein coordinates and insertion orders symbolic; additionally: writing twice gives the same output and leaves the record unchanged, same object-level annotations after each reload.",
